@@ -15,7 +15,7 @@ V_CONTRACT
 int tell_system_pubsub_msg(const m_mod_t *recipient, m_ctx_t *c, m_mod_t *sender, const char *topic)
 V_REQUIRES(c == g_ctx && topic != NULL)
 V_ASSIGNS(g.sys_msgs, g.sys_sender, g.sys_kind, g.sys_ctx_started, g.sys_ctx_stopped, g.sys_tick, g.sys_at_flush)
-V_ENSURES(V_RET == 0 && g.sys_msgs == V_OLD(g.sys_msgs) + 1 && g.sys_sender == sender && g.sys_kind == v_topic_kind(topic) && g.sys_at_flush == g.flush_calls
+V_ENSURES(V_RET == 0 && g.sys_msgs == V_OLD(g.sys_msgs) + 1 && __CPROVER_pointer_equals(g.sys_sender, sender) && g.sys_kind == v_topic_kind(topic) && g.sys_at_flush == g.flush_calls
           && g.sys_ctx_started == V_OLD(g.sys_ctx_started) + (v_topic_kind(topic) == V_T_CTX_STARTED ? 1 : 0)
           && g.sys_ctx_stopped == V_OLD(g.sys_ctx_stopped) + (v_topic_kind(topic) == V_T_CTX_STOPPED ? 1 : 0)
           && g.sys_tick == V_OLD(g.sys_tick) + (v_topic_kind(topic) == V_T_TICK ? 1 : 0))
@@ -23,7 +23,8 @@ V_ENSURES(V_RET == 0 && g.sys_msgs == V_OLD(g.sys_msgs) + 1 && g.sys_sender == s
 V_CONTRACT
 int m_map_iterate(const m_map_t *m, m_map_cb fn, void *userptr)
 V_REQUIRES(m == g_modules && (fn == evaluate_module || fn == flush_pubsub_msgs))
-V_ASSIGNS(g.eval_passes, g.flush_calls, g_ctx->stats.running_modules, g_ctx->quit, g_ctx->quit_code)
+V_ASSIGNS(g.eval_passes, g.flush_calls, g.quit_at_iter, g.quitcode_at_iter, g_ctx->stats.running_modules, g_ctx->quit, g_ctx->quit_code)
+V_ENSURES(g.quit_at_iter == V_OLD(g_ctx->quit) && g.quitcode_at_iter == V_OLD(g_ctx->quit_code))
 V_ENSURES(g.eval_passes == V_OLD(g.eval_passes) + (fn == evaluate_module ? 1 : 0) && g.flush_calls == V_OLD(g.flush_calls) + (fn == flush_pubsub_msgs ? 1 : 0))
 V_ENSURES(V_IMP(fn == flush_pubsub_msgs, g_ctx->quit == V_OLD(g_ctx->quit) && g_ctx->quit_code == V_OLD(g_ctx->quit_code)))
 ;
@@ -42,17 +43,18 @@ V_CONTRACT int m_thpool_free(m_thpool_t **pool, bool wait_all) V_REQUIRES(pool =
 V_CONTRACT
 static int loop_start(m_ctx_t *c, int max_events)
 V_REQUIRES(c == g_ctx && V_CTX_OK && g_ctx->state == M_CTX_IDLE)
-V_ASSIGNS(g.pollinit_calls, g.fetch_calls, g.eval_passes, g.flush_calls, g.sys_msgs, g.sys_sender, g.sys_kind, g.sys_ctx_started, g.sys_ctx_stopped, g.sys_tick, g.sys_at_flush, g.tick_poll_calls, g.tick_poll_flag,
+V_ASSIGNS(g.pollinit_calls, g.fetch_calls, g.eval_passes, g.flush_calls, g.quit_at_iter, g.quitcode_at_iter, g.sys_msgs, g.sys_sender, g.sys_kind, g.sys_ctx_started, g.sys_ctx_stopped, g.sys_tick, g.sys_at_flush, g.tick_poll_calls, g.tick_poll_flag,
           g_ctx->ppriv.max_events, g_ctx->stats.looping_start_time, g_ctx->state, g_ctx->quit, g_ctx->quit_code, g_ctx->stats.running_modules)
 V_ENSURES(V_IMP(g_pollinit_ret != 0, V_RET == g_pollinit_ret && g_ctx->state == M_CTX_IDLE && g.sys_msgs == V_OLD(g.sys_msgs) && g.eval_passes == V_OLD(g.eval_passes)))
-/* the loop starts: quit request cleared, one evaluation pass over the modules (IDLE modules get started), exactly one loop-started notification */
-V_ENSURES(V_IMP(g_pollinit_ret == 0, V_RET == 0 && g_ctx->state == M_CTX_LOOPING && !g_ctx->quit && g_ctx->quit_code == 0 && g.eval_passes == V_OLD(g.eval_passes) + 1))   /*@C01.evaluation-pass-when-the-loop-starts*/
-V_ENSURES(V_IMP(g_pollinit_ret == 0, g.sys_ctx_started == V_OLD(g.sys_ctx_started) + 1 && g.sys_msgs == V_OLD(g.sys_msgs) + 1 && g.sys_sender == NULL))                     /*@C19.exactly-one-loop-started-notification*/
+/* the loop starts: any stale quit request is cleared BEFORE the one evaluation pass over the modules (IDLE modules get started; a module's on_start may legitimately ask the
+ * fresh loop to quit, so the flag is pinned at the moment the pass begins, not at return), exactly one loop-started notification */
+V_ENSURES(V_IMP(g_pollinit_ret == 0, V_RET == 0 && g_ctx->state == M_CTX_LOOPING && !g.quit_at_iter && g.quitcode_at_iter == 0 && g.eval_passes == V_OLD(g.eval_passes) + 1))   /*@C01.evaluation-pass-when-the-loop-starts*/
+V_ENSURES(V_IMP(g_pollinit_ret == 0, g.sys_ctx_started == V_OLD(g.sys_ctx_started) + 1 && g.sys_msgs == V_OLD(g.sys_msgs) + 1 && __CPROVER_pointer_equals(g.sys_sender, NULL)))                     /*@C19.exactly-one-loop-started-notification*/
 ;
 V_CONTRACT
 static uint8_t loop_stop(m_ctx_t *c)
 V_REQUIRES(c == g_ctx && V_CTX_OK && g_ctx->state == M_CTX_LOOPING)
-V_ASSIGNS(g.flush_calls, g.eval_passes, g.sys_msgs, g.sys_sender, g.sys_kind, g.sys_ctx_started, g.sys_ctx_stopped, g.sys_tick, g.sys_at_flush, g.tick_poll_calls, g.tick_poll_flag, g.pollclear_calls, g.thpool_free_calls,
+V_ASSIGNS(g.flush_calls, g.eval_passes, g.quit_at_iter, g.quitcode_at_iter, g.sys_msgs, g.sys_sender, g.sys_kind, g.sys_ctx_started, g.sys_ctx_stopped, g.sys_tick, g.sys_at_flush, g.tick_poll_calls, g.tick_poll_flag, g.pollclear_calls, g.thpool_free_calls,
           g.ctxdereg_calls, g_ctx->thpool, g_ctx->state, g_ctx->ppriv.max_events, g_ctx->stats.looping_start_time, g_ctx->stats.recv_msgs, g_ctx->stats.idle_time, g_ctx->stats.last_recv_time,
           g_ctx->stats.running_modules, g_ctx->quit, g_ctx->quit_code)
 /* returns exactly the requested quit code */
@@ -70,6 +72,6 @@ V_CONTRACT
 static ev_src_t *process_tick(ev_src_t *this, m_ctx_t *c, int idx, evt_priv_t *evt)
 V_REQUIRES(c == g_ctx && V_CTX_OK)
 V_ASSIGNS(g.tick_reads, g.sys_msgs, g.sys_sender, g.sys_kind, g.sys_ctx_started, g.sys_ctx_stopped, g.sys_tick, g.sys_at_flush)
-V_ENSURES(V_RET == this && g.tick_reads == V_OLD(g.tick_reads) + 1 && g.sys_tick == V_OLD(g.sys_tick) + 1 && g.sys_msgs == V_OLD(g.sys_msgs) + 1 && g.sys_sender == NULL)  /*@C19.one-tick-notification-per-timer-expiry*/
+V_ENSURES(V_RET == this && g.tick_reads == V_OLD(g.tick_reads) + 1 && g.sys_tick == V_OLD(g.sys_tick) + 1 && g.sys_msgs == V_OLD(g.sys_msgs) + 1 && __CPROVER_pointer_equals(g.sys_sender, NULL))  /*@C19.one-tick-notification-per-timer-expiry*/
 ;
 #endif
